@@ -1,6 +1,8 @@
 """C10 - recorded metrics land in the innermost active scope and fold deterministically."""
-from harness.legs import cfg_text, leg_m, leg_mutant, leg_r
-from props.metrics_common import MetricsDriver
+import random
+
+from harness.legs import cfg_text, leg_m, leg_mutant, leg_r, leg_t_gen
+from props.metrics_common import MetricsDriver, gen_trace, trace_kw
 
 SPEC = "Metrics"
 MANIFEST = dict(
@@ -39,6 +41,11 @@ def run(rep, work, tier, seed):
                    ["FoldOrder"])
     leg_r(rep, work, SPEC, f"conf_{tier}", cfg_text(conf, invariants=INVS), lambda: MetricsDriver(MT),
           internal=INTERNAL)
+    # leg T: random programs over 4 tasks / 8 scopes recorded from the real library, validated by a trace module
+    # generated from Metrics.tla (callbacks run as silent internal steps between the logged events)
+    rnd = random.Random(seed * 19 + 5)
+    traces = [gen_trace(rnd, MT, records=True) for _ in range(120 if tier == "quick" else 1500)]
+    leg_t_gen(rep, work, SPEC, f"trace_{tier}", traces, **trace_kw(MT))
     rep.assumptions += [
         "metric values are observed when the scope's completion callback runs and again at the end of each run, through "
         "ScopeMetrics.read and ScopeMetrics.metrics(merge=...) - a scope that never completes is not read",
